@@ -295,6 +295,8 @@ func TestVerif_C20R(t *testing.T) {
 		res.bump("histories")
 	}
 	// through New(): channels -> event loop -> save timer -> restart
+	// crash points and failing file operations in the save path, start-up next to leftovers
+	c20rFaults(t, res, dir)
 	c20rLoops(t, res, dir)
 
 	shards := 1
